@@ -578,7 +578,6 @@ type mapRange struct {
 	rs   *ast.RangeStmt
 }
 
-
 // freshSliceExpr: the expression is a slice (or map) nobody else holds: a call of slices.Clone / maps.Clone / slices.Collect /
 // append onto a fresh value / make.
 func freshSliceExpr(info *types.Info, e ast.Expr) bool {
